@@ -75,3 +75,18 @@ package chord
 //@   requires n.ID() < 1<<48 && key < 1<<48 && n.state != nil
 //@   modifies nodeState.state
 //@   decreases dist48(n.ID() + 1, key)
+//@   ensures non-nil-result: err == nil ==> r != nil
+
+// ---- C08: a join request is answered in every neighbour-pointer state
+
+//@ func (n *LocalNode) RequestToJoin(joiner chord.VNode) (pred chord.VNode, succs []chord.VNode, err error)
+//@   opt frame=off
+//@   use ids48
+//@   safety nil,bounds,assert,panic
+//@   requires valid-joiner: joiner != nil && n.ID() < 281474976710656 && joiner.ID() < 281474976710656
+//@   requires started: n.state != nil && n.state.history != nil
+//@   ghost local bool = false
+//@   at call Lock#1: ghost local := true
+//@   ensures local-handling-is-success-or-retryable: local ==> (err == nil || chord.retryableChord(err))
+//@   ensures success-hands-over: (local && err == nil) ==> (len(succs) >= 1 && n.predecessor == joiner && n.surrogate == joiner)
+//@   ensures refusal-changes-no-pointer: (local && err != nil) ==> (n.predecessor == old(n.predecessor) && n.surrogate == old(n.surrogate))
